@@ -53,6 +53,8 @@ var properties = map[string]*propSpec{
 	"C18": {Level: "exploration", Scenarios: []scenRef{{Name: "wire", quickS: 20, thoroughS: 600, Extra: []string{"-sim.nofaultevery=0"}}}, Rule: wireRule},
 	"C01": {Level: "exploration", Scenarios: []scenRef{{Name: "mux", quickS: 20, thoroughS: 600}}, CrashProperty: "C01",
 		Rule: "runs of scenario mux; distinct = distinct canonical-log fingerprint; non-trivial = at least one injected fault or park fired and at least one operation completed"},
+	"C05": {Level: "exploration", Scenarios: []scenRef{{Name: "byz", quickS: 25, thoroughS: 900}},
+		Rule: "runs of scenario byz (a node that corrupts 1-3 tape-chosen outgoing frames per run); distinct = distinct canonical-log fingerprint; non-trivial = at least one mutation fired and at least one operation completed"},
 	"C07": {Level: "exploration", Scenarios: []scenRef{{Name: "wr", quickS: 20, thoroughS: 600}}, CrashProperty: "C07",
 		Rule: "runs of scenario wr; distinct = distinct canonical-log fingerprint; non-trivial = at least one write fault, cancel or park fired and at least one operation completed"},
 	"C11": {Level: "exploration", Scenarios: []scenRef{{Name: "pick", quickS: 15, thoroughS: 600}},
